@@ -22,8 +22,16 @@ type receivePayloadQueue struct {
 func newReceivePayloadQueue(maxTSNOffset uint32) *receivePayloadQueue {
 	maxTSNOffset = ((maxTSNOffset + 63) / 64) * 64
 
+	// The ring index (tsn/64) % len(tsnBitmask) is continuous across the 2^32
+	// TSN wrap only if the number of words divides 2^26, so round the word
+	// count up to a power of two (maxTSNOffset still bounds admission).
+	words := uint32(1)
+	for words < maxTSNOffset/64 {
+		words <<= 1
+	}
+
 	return &receivePayloadQueue{
-		tsnBitmask:   make([]uint64, maxTSNOffset/64),
+		tsnBitmask:   make([]uint64, words),
 		maxTSNOffset: maxTSNOffset,
 	}
 }
